@@ -5,8 +5,8 @@ from props import hc_common as H
 from gen_hc import Sim, Net, pick_cfg, random_traffic, pick_len, F
 
 PROP = "C01"
-LAKE_TARGETS = ["Uflow.Props.C01", "Uflow.Props.C01Sys", "Uflow.Props.C01Hc", "Uflow.Props.C01Init", "uflow_driver"]
-PROPS_FILES = ["C01", "C01Sys", "C01Hc", "C01Init"]
+LAKE_TARGETS = ["Uflow.Props.C01", "Uflow.Props.C01Sys", "Uflow.Props.C01Hc", "Uflow.Props.C01Init", "Uflow.Props.C01Age", "uflow_driver"]
+PROPS_FILES = ["C01", "C01Sys", "C01Hc", "C01Init", "C01Age"]
 TRUSTED_BASE = [
     "Lean 4.33 kernel; axioms per theorem under coverage.axioms",
     "tools/extract_consts.py",
@@ -17,7 +17,7 @@ ASSUMPTIONS = ["NoAlias: a frame delayed by the network for 2^32 frame ids / 2^2
 RULE = ("two real HalfConnections, send histories over up to 64 channels x 4 modes x sizes around the fragment boundaries, per-frame fates in both directions (drop, duplicate, "
         "delay/reorder, 1-4 bit flips), initial packet/frame ids at 0, random and within one window of 2^20 / 2^32, windows 4/16/64/4096 cycled many times, long runs of packets "
         "behind an unacknowledged Reliable packet (parent leads crossing the 127/128 and 255/256 header thresholds); oracle: per channel the delivered payloads are a duplicate-free "
-        "subsequence of the submitted ones. Non-trivial: >= 5 packets delivered under at least one fault. Round-6 family: two hand-overs of one channel during a stall of the other, around a lost Persistent packet, resends in a planned order.")
+        "subsequence of the submitted ones. Non-trivial: >= 5 packets delivered under at least one fault. Round-6 family: two hand-overs of one channel during a stall of the other, around a lost Persistent packet, resends in a planned order. Round-7 stream pending_sends (real Client / Server): three to eight packets submitted before the handshake completes, more afterwards; per-channel order of the Receive events of the server.")
 
 def long_lead_scenario(r, it):
     """A Reliable packet on channel c is lost again and again while small packets follow it, so that the parent leads in
@@ -208,9 +208,72 @@ def streams(rng, tier, ctx):
             cases.append((cid, sim.ops)); meta[cid] = sim
     finally:
         it.close()
-    return [{"name": "lossy", "mode": "hc", "cases": cases, "meta": meta, "case_timeout": 120}]
+    out = [{"name": "lossy", "mode": "hc", "cases": cases, "meta": meta, "case_timeout": 120}]
+    out.append(pending_sends_stream(rng, tier))
+    return out
+
+def pending_sends_stream(rng, tier):
+    """Round-7 family (change C01-g): a real Client submits three to eight packets, several on one channel, BEFORE its handshake has
+    completed (Client::send queues them, the SYN-ACK handler hands the queue to the new half connection), then more afterwards;
+    the real Server's Receive events must keep the per-channel submission order. Loss-free links, so nothing else can reorder."""
+    from gen_ep import EpSim, DEFAULT_EP
+    it = Interactive("ep")
+    cases = []; meta = {}
+    try:
+        for k in range(6 if tier == "quick" else 80):
+            r = rng.fork()
+            it.op("=== ps%d" % k)
+            sim = EpSim(r, inter=it)
+            sim.srv(8, 8, 1, dict(DEFAULT_EP))
+            lat = r.pick([0, 5_000_000, 40_000_000])
+            nets = {"c2s": Net(latency=lat), "s2c": Net(latency=lat)}
+            sim.cli(0, dict(DEFAULT_EP), nets)
+            for _ in range(r.range(3, 8)):
+                sim.send("c", 0, r.pick([0, 0, 0, 1]), r.pick([3, 3, 2, 1]), r.pick([1, 10, 100, 1448, 3000]))
+            late = r.range(0, 4)
+            def actions(sim):
+                if sim.tick in (1, 2, 3, 10, 20) and r.chance(1, 2):
+                    for _ in range(r.range(1, 3)):
+                        sim.send("c", 0, r.pick([0, 0, 1]), r.pick([3, 2, 1]), r.pick([1, 50, 1448, 2000]))
+            sim.run(r.range(60, 150), 20_000_000, nets, actions)
+            cases.append(("p%d" % k, sim.ops)); meta["p%d" % k] = sim
+    finally:
+        it.close()
+    return {"name": "pending_sends", "mode": "ep", "cases": cases, "meta": meta, "case_timeout": 60}
+
+def ep_order_failures(stream, cid, ops, outs):
+    from props import ep_common as E
+    fails = E.trap_failures(ops, outs)
+    sim = stream["meta"][cid]
+    sev, cev, log, delivered, calls = E.replay(ops, outs)
+    sent = sim.sent.get(("c", 0), [])
+    by_digest = {}
+    for p in sent:
+        by_digest.setdefault(p.digest, []).append(p)
+    last = {}; seen = set()
+    for (t, tag, peer, x) in sev:
+        if tag != "R" or peer != 0:
+            continue
+        cand = by_digest.get(x)
+        if not cand:
+            fails.append({"oracle": "exact", "detail": "server delivered a packet (%s) at %d ms that the client never submitted" % (x, t // 10**6), "signature": {"oracle": "exact"}})
+            break
+        p = next((q for q in cand if q.idx not in seen), None)
+        if p is None:
+            fails.append({"oracle": "at_most_once", "detail": "packet #%d delivered again at %d ms" % (cand[0].idx, t // 10**6), "signature": {"oracle": "at_most_once"}})
+            break
+        seen.add(p.idx)
+        if p.chan in last and last[p.chan] > p.idx:
+            fails.append({"oracle": "in_order", "detail": "channel %d: packet #%d (submitted %s the handshake completed) delivered at %d ms after packet #%d" %
+                          (p.chan, p.idx, "before" if p.tick == 0 else "around/after", t // 10**6, last[p.chan]), "signature": {"oracle": "in_order", "family": "pending_sends"}})
+            break
+        last[p.chan] = p.idx
+    return fails
 
 def signature(ops, outs):
+    if any(op.startswith("srv ") for op in ops[:4]):
+        nr = sum(o.split("|")[0].count(" R") for op, o in zip(ops, outs) if op == "sstep" and o.startswith("ev"))
+        return None if nr < 3 else ("pending_sends", ops[2][:30], min(nr, 12))
     nd = sum(int(o.split(" ")[0]) for op, o in zip(ops, outs) if op.endswith(" recv") and o and o[0].isdigit())
     faults = sum(1 for op in ops if op.startswith("fwd ") and len(op.split(" ")) > 4)
     if nd < 5:
@@ -245,6 +308,8 @@ def channel_order_failures(sim, delivered):
     return fails
 
 def oracle(stream, cid, ops, outs):
+    if stream["mode"] == "ep":
+        return ep_order_failures(stream, cid, ops, outs)
     fails = H.trap_failures(ops, outs)
     sim = stream["meta"][cid]
     delivered, frames, probes, gets = H.replay_outputs(ops, outs)
